@@ -37,9 +37,10 @@ def names(tier):
 
 
 INT = {"type": "integer"}
-USES = ("member", "variant", "def", "member_reqonly", "member_flat", "ext_variant", "int_variant")
+USES = ("member", "variant", "def", "member_reqonly", "member_flat", "ext_variant", "int_variant", "ext_variant_t1", "ext_variant_t2", "ext_variant_struct", "adj_variant")
 PAIR_USES = {"member": ("member", "member_mixed", "member_reqonly", "vmember_ext", "vmember_int", "vmember_unt", "vmember_adj"), "variant": ("variant",), "def": ("def",), "member_flat": ("member_flat",),
-             "ext_variant": ("ext_variant",), "int_variant": ("int_variant",), "member_reqonly": ()}
+             "ext_variant": ("ext_variant",), "int_variant": ("int_variant",), "member_reqonly": (),
+             "ext_variant_t1": ("ext_variant_t1",), "ext_variant_t2": (), "ext_variant_struct": (), "adj_variant": ("adj_variant",)}
 
 
 def doc_for(use, ns):
@@ -76,6 +77,18 @@ def doc_for(use, ns):
         subs = [{"type": "object", "properties": {n: INT}, "required": [n], "additionalProperties": False} for n in ns]
         subs.append({"type": "object", "properties": {"zz9": {"type": "boolean"}}, "required": ["zz9"], "additionalProperties": False})
         return {"definitions": {"T": {"oneOf": subs}}}, ns + ["zz9"]
+    if use in ("ext_variant_t1", "ext_variant_t2", "ext_variant_struct"):
+        # the variant's payload kind decides which template writes the variant (and its serde attributes)
+        pay = {"ext_variant_t1": {"type": "array", "items": [INT], "minItems": 1, "maxItems": 1},
+               "ext_variant_t2": {"type": "array", "items": [INT, {"type": "string"}], "minItems": 2, "maxItems": 2},
+               "ext_variant_struct": {"type": "object", "properties": {"x": INT}, "required": ["x"]}}[use]
+        subs = [{"type": "object", "properties": {n: pay}, "required": [n], "additionalProperties": False} for n in ns]
+        subs.append({"type": "object", "properties": {"zz9": {"type": "boolean"}}, "required": ["zz9"], "additionalProperties": False})
+        return {"definitions": {"T": {"oneOf": subs}}}, ns + ["zz9"]
+    if use == "adj_variant":
+        subs = [{"type": "object", "properties": {"tag9": {"type": "string", "enum": [n]}, "c9": [INT, {"type": "string"}][i % 2]}, "required": ["tag9", "c9"]} for i, n in enumerate(ns)]
+        subs.append({"type": "object", "properties": {"tag9": {"type": "string", "enum": ["zz9"]}, "c9": {"type": "boolean"}}, "required": ["tag9", "c9"]})
+        return {"definitions": {"T": {"oneOf": subs}}}, ns + ["zz9"]
     if use == "int_variant":
         subs = [{"type": "object", "properties": {"tag9": {"type": "string", "enum": [n]}, "v%d" % i: INT}, "required": ["tag9"]} for i, n in enumerate(ns)]
         subs.append({"type": "object", "properties": {"tag9": {"type": "string", "enum": ["zz9"]}}, "required": ["tag9"]})
@@ -102,7 +115,7 @@ def cases(tier, seed):
         if s in seen or s == "zz9":
             continue
         seen.add(s)
-        for use in ("member_reqonly", "member_flat", "ext_variant", "int_variant"):
+        for use in ("member_reqonly", "member_flat", "ext_variant", "int_variant", "ext_variant_t1", "ext_variant_t2", "ext_variant_struct", "adj_variant"):
             if use == "int_variant" and s == "":
                 pass
             out.append(mk(use, [s]))
